@@ -103,7 +103,7 @@ IFW = re.compile(r"(writer::Writer::(add_\w+|finish|new)|a2ml::GenericIfData::(w
 def ifdata_table(prog):
     """rows of GenericIfData::write / write_item: which writer call emits which variant's value (and location), the recursion into
     nested items, the tagged items handed to add_group"""
-    fids = [f for f in prog.bodies if re.search(r"a2ml::GenericIfData::(write|write_item)$", mir.strip_generics(f))]
+    fids = diag.with_new_functions(prog, [f for f in prog.bodies if re.search(r"a2ml::GenericIfData::(write|write_item)$", mir.strip_generics(f))])
     A = sym.Analyzer(prog, opaque=[r"writer::.*", r"a2ml::.*"])
 
     def eff(b, S, ev):
